@@ -574,6 +574,7 @@ func c09SupplierMap(c *Ctx, rule string) {
 	// A key that merges distinct types (package *name* qualifier, bare object name) turns two suppliers into a
 	// phantom duplicate, or one supplier into the source of an unrelated requirement.
 	nKeys := 0
+	keyShapes := map[string][]string{}
 	for _, f2 := range withClosures(ng) {
 		for _, b := range f2.Blocks {
 			for _, in := range b.Instrs {
@@ -599,9 +600,28 @@ func c09SupplierMap(c *Ctx, rule string) {
 					ok, why := injectiveTypeKey(L, t)
 					c.check(ok, rule, fmt.Sprintf("%s:type-key", fnName(f2)), L.pos(in.Pos()),
 						"requirements and suppliers are matched by a key that distinguishes types from different packages", why)
+					sh := keyShape(t)
+					keyShapes[sh] = append(keyShapes[sh], L.pos(in.Pos()))
 				}
 			}
 		}
+	}
+	// suppliers are recorded and requirements looked up through the same normalisation of the type: a lookup that resolves
+	// aliases (or strips pointers) while the insert does not makes a supplied type look unsupplied
+	if len(keyShapes) > 1 {
+		major, cnt := "", 0
+		for k, v := range keyShapes {
+			if len(v) > cnt {
+				major, cnt = k, len(v)
+			}
+		}
+		for k, v := range keyShapes {
+			if k != major {
+				c.fail(rule, fnName(ng)+":type-key-normalisation-differs", v[0], "this map operation keys the type differently from the other supplier/argument map operations: suppliers and requirements of one type can miss each other", "here: "+k, fmt.Sprintf("elsewhere (%d sites): %s", cnt, major))
+			}
+		}
+	} else {
+		c.ok(rule, "all supplier/argument map operations key the type through the same functions", strings.Join(sortedKeys(keyShapes), " | "))
 	}
 	c.floor(rule, "keyed operations on the supplier/argument maps", nKeys, 8)
 	c.floor(rule, "inserts into the supplier map", nIns, 2)
@@ -716,4 +736,23 @@ func injectiveTypeKey(L *Loaded, term string) (bool, string) {
 		return false, "key is types.TypeString with an unrecognised qualifier: " + term
 	}
 	return false, "key is not a path-qualified type rendering: " + term
+}
+
+// keyShape: the chain of function applications between the map key and the data access that yields the type
+// ("invoke (go/types.Type).String" for t.String(); "...String < go/types.Unalias" for types.Unalias(t).String()).
+func keyShape(t string) string {
+	var chain []string
+	for {
+		i := strings.Index(t, "(")
+		if i <= 0 {
+			break
+		}
+		head := t[:i]
+		if strings.HasPrefix(head, "field:") || head == "index" || head == "lookup" || head == "typeassert" || strings.HasPrefix(head, "param:") || strings.HasPrefix(head, "extract") || strings.HasPrefix(head, "phi") {
+			break
+		}
+		chain = append(chain, head)
+		t = t[i+1:]
+	}
+	return strings.Join(chain, " < ")
 }
